@@ -337,3 +337,17 @@ pub fn obs_digest(q: &QRCode) -> u64 {
     h.add_u64(n as u64);
     h.get()
 }
+
+/// C11's forced-mask override on one outcome (used by replay)
+pub fn check_symbol_forced_mask(out: &Outcome, o: &Opts) -> Vec<(String, String)> {
+    if let (Outcome::Ok(q), Some(fk)) = (out, o.mask) {
+        let n = q.size;
+        let vals = subject::values(q);
+        let (c1, _) = r::fmt_coords(n);
+        let named = r::nearest_format(r::read_word(&vals, n, &c1)).map(|x| x.1);
+        if q.mask.map(|m| m as usize) != Some(fk as usize) || named != Some(fk as usize) {
+            return vec![("C11/forced-mask-not-used".into(), format!("forced mask {} but the symbol reports {:?} and its format information names {:?}", fk, q.mask, named))];
+        }
+    }
+    vec![]
+}
